@@ -268,64 +268,112 @@ func c20r3(c *Ctx) {
 			c.Anchor(rule, name)
 			continue
 		}
-		e := c.P.Env(fn)
 		recv, par := "P:"+paramName(fn.Params[0]), "P:"+paramName(fn.Params[1])
 		rooted := func(t string) bool {
 			return strings.HasPrefix(strings.TrimLeft(t, "*"), par+".") || strings.TrimLeft(t, "*") == par
 		}
-		var bad []string
-		// fields of the receiver that are mutated in place somewhere in the merge functions
-		mutFields := map[string]bool{}
-		for _, b := range fn.Blocks {
-			for _, in := range b.Instrs {
-				switch x := in.(type) {
-				case ssa.CallInstruction:
-					cc := x.Common()
-					if m := bigMethod(x); m != "" && bigMutators[m] {
-						rt := e.Term(cc.Args[0])
-						if rooted(rt) {
-							bad = append(bad, m+" mutates "+rt+" at "+c.P.InstrPos(in))
+		// the merge function and every module helper it calls, each analysed in the merge function's terms
+		var envs []*Env
+		var collect func(e *Env, d int)
+		collect = func(e *Env, d int) {
+			envs = append(envs, e)
+			if d > 3 {
+				return
+			}
+			for _, b := range e.Fn.Blocks {
+				for _, in := range b.Instrs {
+					if call, ok := in.(*ssa.Call); ok {
+						if sc := call.Call.StaticCallee(); sc != nil && len(sc.Blocks) > 0 && sc.Pkg != nil && strings.HasPrefix(sc.Pkg.Pkg.Path(), modPath) && sc != fn {
+							collect(e.Sub(call, sc), d+1)
 						}
-						if strings.HasPrefix(rt, "*"+recv+".") {
-							mutFields[strings.TrimPrefix(rt, "*"+recv+".")] = true
-						}
-					}
-					if bi, ok := cc.Value.(*ssa.Builtin); ok && (bi.Name() == "append" || bi.Name() == "copy") {
-						dt := e.Term(cc.Args[0])
-						if rooted(dt) {
-							bad = append(bad, bi.Name()+" writes into "+dt+" at "+c.P.InstrPos(in))
-						}
-						if strings.HasPrefix(dt, "*"+recv+".") {
-							mutFields[strings.TrimPrefix(dt, "*"+recv+".")] = true
-						}
-					}
-				case *ssa.MapUpdate:
-					if mt := e.Term(x.Map); rooted(mt) {
-						bad = append(bad, "map write into "+mt+" at "+c.P.InstrPos(in))
 					}
 				}
 			}
 		}
-		for _, b := range fn.Blocks {
-			for _, in := range b.Instrs {
-				st, ok := in.(*ssa.Store)
-				if !ok {
-					continue
+		collect(c.P.Env(fn), 0)
+		// derived: the value is (possibly, on some path) a pointer / slice taken from the parameter
+		var derived func(e *Env, v ssa.Value, d int) bool
+		derived = func(e *Env, v ssa.Value, d int) bool {
+			if d > 8 {
+				return false
+			}
+			if t := e.Term(v); rooted(t) || strings.Contains(t, "*"+par+".") {
+				return true
+			}
+			switch x := v.(type) {
+			case *ssa.Phi:
+				for _, ed := range x.Edges {
+					if derived(e, ed, d+1) {
+						return true
+					}
 				}
-				at := e.Term(st.Addr)
-				if rooted(at) {
-					bad = append(bad, "store through "+at+" at "+c.P.InstrPos(in))
+			case *ssa.Parameter:
+				if a, pe := e.actual(x); a != nil {
+					return derived(pe, a, d+1)
 				}
-				if strings.HasPrefix(at, recv+".") {
-					f := strings.TrimPrefix(at, recv+".")
-					if vt := e.Term(st.Val); mutFields[f] && strings.Contains(vt, par+".") {
-						// append(o.F, outAcc.F[k:]...) is a copy of elements, not an alias: the appended operand is not the stored value
-						if call, isCall := st.Val.(*ssa.Call); isCall {
-							if bi, ok := call.Call.Value.(*ssa.Builtin); ok && bi.Name() == "append" && !rooted(e.Term(call.Call.Args[0])) {
-								continue
+			case *ssa.Slice:
+				return derived(e, x.X, d+1)
+			case *ssa.ChangeType:
+				return derived(e, x.X, d+1)
+			}
+			return false
+		}
+		var bad []string
+		mutFields := map[string]bool{}
+		for _, e := range envs {
+			for _, b := range e.Fn.Blocks {
+				for _, in := range b.Instrs {
+					switch x := in.(type) {
+					case ssa.CallInstruction:
+						cc := x.Common()
+						if m := bigMethod(x); m != "" && bigMutators[m] {
+							rt := e.Term(cc.Args[0])
+							if derived(e, cc.Args[0], 0) {
+								bad = append(bad, m+" mutates "+rt+" at "+c.P.InstrPos(in))
+							}
+							if strings.HasPrefix(rt, "*"+recv+".") {
+								mutFields[strings.TrimPrefix(rt, "*"+recv+".")] = true
 							}
 						}
-						bad = append(bad, "receiver field "+f+" (mutated in place by the merge) is assigned "+vt+", a reference into the merged-in account, at "+c.P.InstrPos(in))
+						if bi, ok := cc.Value.(*ssa.Builtin); ok && (bi.Name() == "append" || bi.Name() == "copy") {
+							dt := e.Term(cc.Args[0])
+							if derived(e, cc.Args[0], 0) {
+								bad = append(bad, bi.Name()+" writes into "+dt+" at "+c.P.InstrPos(in))
+							}
+							if strings.HasPrefix(dt, "*"+recv+".") {
+								mutFields[strings.TrimPrefix(dt, "*"+recv+".")] = true
+							}
+						}
+					case *ssa.MapUpdate:
+						if derived(e, x.Map, 0) {
+							bad = append(bad, "map write into "+e.Term(x.Map)+" at "+c.P.InstrPos(in))
+						}
+					}
+				}
+			}
+		}
+		for _, e := range envs {
+			for _, b := range e.Fn.Blocks {
+				for _, in := range b.Instrs {
+					st, ok := in.(*ssa.Store)
+					if !ok {
+						continue
+					}
+					at := e.Term(st.Addr)
+					if rooted(at) {
+						bad = append(bad, "store through "+at+" at "+c.P.InstrPos(in))
+					}
+					if strings.HasPrefix(at, recv+".") {
+						f := strings.TrimPrefix(at, recv+".")
+						if mutFields[f] && derived(e, st.Val, 0) {
+							// append(o.F, outAcc.F[k:]...) copies elements, it does not alias: the stored value is the append result on an own base
+							if call, isCall := st.Val.(*ssa.Call); isCall {
+								if bi, ok := call.Call.Value.(*ssa.Builtin); ok && bi.Name() == "append" && !derived(e, call.Call.Args[0], 0) {
+									continue
+								}
+							}
+							bad = append(bad, "receiver field "+f+" (mutated in place by the merge) is assigned "+e.Term(st.Val)+", a reference into the merged-in account, at "+c.P.InstrPos(in))
+						}
 					}
 				}
 			}
@@ -336,9 +384,9 @@ func c20r3(c *Ctx) {
 				mf = append(mf, f)
 			}
 			sort.Strings(mf)
-			c.OK(rule, FuncName(fn), "no write through / alias of the parameter", c.P.Pos(fn.Pos()), "fields mutated in place: {"+strings.Join(mf, ", ")+"}; none is assigned from the parameter")
+			c.OK(rule, FuncName(fn), "no write through / alias of the parameter", c.P.Pos(fn.Pos()), fmt.Sprintf("%d functions analysed; fields mutated in place: {%s}; none is assigned from the parameter", len(envs), strings.Join(mf, ", ")))
 		} else {
-			for _, b := range bad {
+			for _, b := range uniq(bad) {
 				c.FailX(Oblig{Rule: rule, Func: FuncName(fn), Construct: "no write through / alias of the parameter", Pos: c.P.Pos(fn.Pos()), Kind: "violation", Detail: b})
 			}
 		}
